@@ -27,7 +27,7 @@ func TestMain(m *testing.M) {
 		"one cluster over a pool of 4 persistent stub upstreams behind the real chain, controller, per-endpoint transports and GatewayHealthCheck; the probe period is shortened to 20 ms by the verif hook (default 5 s)",
 		"after a health change the harness triggers a probe and waits until the endpoint's readiness reflects it, so 'healthy at the moment it was picked' is exact for sequential steps; requests issued while an update runs may be served under the state before or after it",
 		"a disabled endpoint may receive one already queued probe; probes arriving later than 300 ms after the disabling sync returned are violations (period 20 ms)",
-		"unhealthy upstreams answer /healthz with 500/503; connection resets are not scripted here because client-go retries a reset GET inside one probe invocation for up to 5 s, which would blur 'no probe after disabling'",
+		"unhealthy upstreams answer /healthz with any status other than 200 from a pool of 23 codes (2xx other than 200, 3xx without Location, 4xx, 5xx), with a text body or an API Status body with or without a reason; connection resets are not scripted here because client-go retries a reset GET inside one probe invocation for up to 5 s, which would blur 'no probe after disabling'",
 		"Go runtime, net/http loopback, pgregory.net/rapid v1.3.0",
 	)
 	stats.Main(m)
@@ -277,13 +277,14 @@ func (w *world) judge(t *rapid.T, r result, policy int, allowed []map[int]bool, 
 }
 
 func TestPropEndpointSelection(t *testing.T) {
-	sub := stats.NewSub("spec-and-health-histories", "rapid state machine: ops spec update (servers subset of the pool in any order, disabled flags, one time in five with endpoints listed twice with equal or conflicting flags - disabled if any entry says so, two policies with / without upstream subset), health flip of an upstream (then trigger + wait), n sequential requests for a policy, a burst of requests racing with a spec update, health-check trigger on a disabled endpoint; oracle: a forwarded request reached an endpoint that is in the server list, in the matched policy's subset, enabled and healthy (before or after the update for racing requests), and the answer came from that endpoint; no eligible endpoint => 503 and nothing forwarded; a disabled endpoint gets no proxied request and no probe later than 300 ms after the disabling sync; probes resume on re-enable; non-trivial = >= 1 health flip / disable / enable / subset change followed by >= 1 request; distinct by FNV-64 of the op trace")
+	sub := stats.NewSub("spec-and-health-histories", "rapid state machine: ops spec update (servers subset of the pool in any order, disabled flags, one time in five with endpoints listed twice with equal or conflicting flags - disabled if any entry says so, two policies with / without upstream subset), health flip of an upstream (/healthz answers 200 or one of 23 other status codes with a text or API Status body; then trigger + wait), n sequential requests for a policy, a burst of requests racing with a spec update, health-check trigger on a disabled endpoint; oracle: a forwarded request reached an endpoint that is in the server list, in the matched policy's subset, enabled and healthy (before or after the update for racing requests), and the answer came from that endpoint; no eligible endpoint => 503 and nothing forwarded; a disabled endpoint gets no proxied request and no probe later than 300 ms after the disabling sync; probes resume on re-enable; non-trivial = >= 1 health flip / disable / enable / subset change followed by >= 1 request; distinct by FNV-64 of the op trace")
 	stats.Check(t, stats.N(40, 300), func(t *rapid.T) {
 		g := gwbox.NewGateway()
 		defer g.Close()
 		g.SetToken("client-token", gwbox.Identity{Name: "alice"})
 		w := &world{g: g, disabledAt: map[int]time.Time{}}
 		for i := range pool.Upstreams {
+			pool.Upstreams[i].SetHealthBody("")
 			pool.Upstreams[i].SetHealth(200)
 			w.health[i] = 200
 			w.observed[i] = -1
@@ -345,7 +346,19 @@ func TestPropEndpointSelection(t *testing.T) {
 			},
 			"health": func(t *rapid.T) {
 				i := rapid.IntRange(0, 3).Draw(t, "upstream")
-				st := rapid.SampledFrom([]int{200, 500, 503}).Draw(t, "status")
+				// healthy = /healthz answers 200; anything else a probe can get back is a failed probe, whatever the
+				// status code and whether or not the body is an API Status object (with or without a reason)
+				st := rapid.SampledFrom([]int{200, 200, 200, 200, 500, 503, 500, 503, 201, 204, 302, 304, 400, 401, 403, 404, 408, 410, 418, 421, 426, 429, 431, 451, 501, 502, 504}).Draw(t, "status")
+				body := ""
+				if st != 200 && st != 204 && st != 304 {
+					switch rapid.IntRange(0, 3).Draw(t, "bodyKind") {
+					case 1:
+						body = fmt.Sprintf(`{"kind":"Status","apiVersion":"v1","metadata":{},"status":"Failure","message":"scripted","reason":%q,"code":%d}`, rapid.SampledFrom([]string{"", "InternalError", "ServiceUnavailable", "NotFound", "Unknown"}).Draw(t, "reason"), st)
+					case 2:
+						body = `{"kind":"Status","apiVersion":"v1","metadata":{},"status":"Success"}`
+					}
+				}
+				pool.Upstreams[i].SetHealthBody(body)
 				pool.Upstreams[i].SetHealth(st)
 				w.health[i] = st
 				trace += fmt.Sprintf("health(%d)=%d;", i, st)
